@@ -292,7 +292,7 @@ def check_c20(pid, tier, t0, replay_key):
     findings += f3
     obl += o3
     st.update(st3)
-    for rule in (e5.rule_l7, e5.rule_l8, e5.rule_l9):
+    for rule in (e5.rule_l7, e5.rule_l8, e5.rule_l9, e5.rule_l10):
         f4, o4, st4 = rule(P, tables)
         findings += f4
         obl += o4
@@ -302,7 +302,7 @@ def check_c20(pid, tier, t0, replay_key):
         st["selftest"] = run_selftest(pid)
     explanation = (
         "Also decides two structural clauses of 'insignificant formatting does not change the output': (L7) the scalar accessors of the Glyphs plist value agree on accepting both spellings of a scalar (quoted / unquoted): numeric and boolean accessors have a String arm, string accessors would need numeric arms (as_str does not: listed known finding, reproduced); (L8) the raw Glyphs text is not rewritten by regular expressions before tokenizing (preprocess_unparsed_plist does: listed known finding, `unicode = (33, 161);` fails where `unicode = (33,161);` builds). " 
-        "(L9) container equivalence, package side: inside the read_dir loop of RawFont::load_package the only conditions a branch depends on are the audited ones (extension == glyph; an empty glyphname is an error) - glyphs are identified by the glyphname inside each file, so a file-name filter drops a glyph the single .glyphs file has (seeded). "
+        "(L10) disk vs memory: the only glyphs-reader functions that touch the file system on the path route are the audited loaders of the file / package they were given - a sibling file consulted beside the source is invisible to the in-memory route (seeded). (L9) container equivalence, package side: inside the read_dir loop of RawFont::load_package the only conditions a branch depends on are the audited ones (extension == glyph; an empty glyphname is an error) - glyphs are identified by the glyphname inside each file, so a file-name filter drops a glyph the single .glyphs file has (seeded). "
         "Decides one clause of C20 (Q1, single pipeline): in the whole-program call graph, from each public entry point (fontc::run for the CLI, "
         "fontc::generate_font for the library) there is a function through which every path to Workload::new, Workload::exec, FeContext::new_root "
         "and BeContext::new_root passes, the two entry points share it, and those four are not called from anywhere outside it. Formulated as a "
@@ -569,12 +569,16 @@ def check_c18(pid, tier, t0, replay_key):
     findings += ft10
     obl += ot10
     st.update(stt10)
+    ft12, ot12, stt12 = e5.rule_t12(P)
+    findings += ft12
+    obl += ot12
+    st.update(stt12)
     st["name_flow_prefixes"] = list(NAME_FLOW)
     common.check_floors(pid, st, tables)
     if tier == "thorough":
         st["selftest"] = run_selftest(pid)
     explanation = (
-        "Decides six clauses of C18 (T10 belongs to the T4/T5 clause: add_anon_group, whose freshness T5 proves, is the only issuer of name ids in fea-rs, because cvParameters addresses its labels as first+i). (T8) 'has a non-empty record': inside StaticMetadata::new every registration of a NamedInstance field (name, PostScript name) as a name record is preceded by an emptiness test of that field (found: stylename=\"\" gave fvar an empty record; repaired). (T7) 'ids below 256 are used only where the specification allows': fvar and STAT pick a name id by string among all ids carrying it, so every accepting path of their NameId predicates must establish id >= 256 or id in the reserved set that the allocator (StaticMetadata::new) and the fvar specification agree on (2, 17), and only the default instance may ask for a reserved id (this found subfamilyNameID=1 for a default instance named like the family; repaired). (N5) every name record derived from the source reaches the merge with the feature file's records, which replaces one only on an equal platform/encoding/language/name-id key (no dropping adapter in between). (T4) 'name ids coming from feature code are shifted past the ids already used': every output-table field that "
+        "Decides seven clauses of C18 - (T12) the allocator of font-specific name ids in StaticMetadata::new starts from the maximum over ALL source name records (the map keyed by NameKey), never from a map re-keyed by string (seeded: one id per string survives, which one depends on hash order, minted ids overwrite source records) - (T10 belongs to the T4/T5 clause: add_anon_group, whose freshness T5 proves, is the only issuer of name ids in fea-rs, because cvParameters addresses its labels as first+i). (T8) 'has a non-empty record': inside StaticMetadata::new every registration of a NamedInstance field (name, PostScript name) as a name record is preceded by an emptiness test of that field (found: stylename=\"\" gave fvar an empty record; repaired). (T7) 'ids below 256 are used only where the specification allows': fvar and STAT pick a name id by string among all ids carrying it, so every accepting path of their NameId predicates must establish id >= 256 or id in the reserved set that the allocator (StaticMetadata::new) and the fvar specification agree on (2, 17), and only the default instance may ask for a reserved id (this found subfamilyNameID=1 for a default instance named like the family; repaired). (N5) every name record derived from the source reaches the merge with the feature file's records, which replaces one only on an equal platform/encoding/language/name-id key (no dropping adapter in between). (T4) 'name ids coming from feature code are shifted past the ids already used': every output-table field that "
         "receives an id minted by fea-rs's NameBuilder (feature parameters, STAT) is one that Compilation::remap_name_ids adjusts - a forgotten field "
         "keeps naming the old id, i.e. no record or someone else's (this found FeatureParams::Size.name_entry, repaired). (T5) the function that hands out a "
         "fresh feature-code name id advances the allocator on every path (a group of empty names used to leave it untouched, so two features shared one "
